@@ -286,8 +286,12 @@ def bulk_store(ex, a, idx, v, node):
         f_ = z3.Int(fresh_name("f"))
         wit = z3.Function(fresh_name("scatpos"), V.INT, V.INT)
         guard_lead = [z3.And(x >= 0, x < to_z3(s_, "int")) for x, s_ in zip(lead, a.shape[:-1])]
-        a1 = z3.ForAll(lead + [p_], z3.Implies(z3.And(*guard_lead, p_ >= 0, p_ < Lz),
-                                                z3.Select(new, *lead, I.sel(p_)) == to_z3(v.sel(*lead, p_), a.kind)))
+        a1_body = z3.Implies(z3.And(*guard_lead, p_ >= 0, p_ < Lz),
+                             z3.Select(new, *lead, I.sel(p_)) == to_z3(v.sel(*lead, p_), a.kind))
+        try:
+            a1 = z3.ForAll(lead + [p_], a1_body, patterns=[v.sel(*lead, p_)])   # trigger on the scattered value's own cell
+        except z3.Z3Exception:
+            a1 = z3.ForAll(lead + [p_], a1_body)
         a2 = z3.ForAll(lead + [f_], z3.Or(z3.Select(new, *lead, f_) == z3.Select(old, *lead, f_),
                                            z3.And(wit(f_) >= 0, wit(f_) < Lz, I.sel(wit(f_)) == f_)),
                        patterns=[z3.Select(new, *lead, f_)])
@@ -629,3 +633,12 @@ def arr_squeeze(ex, obj, args, kwargs, node, env, fr):
                         lambda *o: obj.sel(*[(o[keep.index(d)] if d in keep else 0) for d in range(obj.rank)]))
     r.ghost = dict(obj.ghost)
     return r
+
+
+@spec("snapshot")
+def sp_snapshot(ex, args, kwargs, node):
+    """value of an array at this program point (ghost code: later in-place stores do not affect the snapshot)"""
+    a = args[0]
+    if isinstance(a, Arr):
+        return Arr(a.term, list(a.shape), a.kind, name=a.name + "@snap", ghost=dict(a.ghost))
+    return a
